@@ -23,8 +23,11 @@ VERIF = os.path.dirname(os.path.dirname(os.path.abspath(__file__)))
 REPO = os.environ.get("HVSRPY_VERIF_REPO", "/repo")
 SPEC = os.path.join(VERIF, "spec")
 WORK = os.path.join(VERIF, "work")
-EVID = os.path.join(VERIF, "evidence")
-REPLAYS = os.path.join(VERIF, "replays")
+# evidence / replays of a run against a scratch copy of the repository (selftest, seeded changes) do not
+# overwrite those of the tree under verification
+_SCRATCH = os.path.realpath(REPO) != "/repo"
+EVID = os.path.join(WORK, "evidence-scratch") if _SCRATCH else os.path.join(VERIF, "evidence")
+REPLAYS = os.path.join(WORK, "replays-scratch") if _SCRATCH else os.path.join(VERIF, "replays")
 TLA_CP = "/opt/veriftools/tla/tla2tools.jar:/opt/veriftools/tla/CommunityModules-deps.jar"
 
 os.environ.setdefault("HVSRPY_VERIF", "1")
